@@ -28,7 +28,8 @@ RULE = ("extended ACLs as programs (1..10 remarks/ACEs over the C01 grammar: eve
         "setter calls monitored; programs = ACLs converted; distinct non-trivial = (class, direction, grouped, #splits, "
         "member kinds, named ports, switches)"
         " Round 4: repeats inside the ACL (separator remark twice, exact duplicates, an entry equal to one piece of an earlier multi-port entry)."
-        " Round 5: loose entries inserted among the blocks of a grouped ACL before the conversion; group names that contain a keyword; lower-case nested group names.")
+        " Round 5: loose entries inserted among the blocks of a grouped ACL before the conversion; group names that contain a keyword; lower-case nested group names."
+        " Rounds 6-7: multi-port and repeated-port entries converted at ACE level (refusal or valid target syntax).")
 ASSUMPTIONS = ["entries with a multi-port neq are owned by C19 and excluded", "split entries keep the original's sequence number "
                "(uniqueness is not demanded)", "sequence numbers of address-group members are not judged (IOS members carry "
                "none natively)", "per-platform name vocabularies come from the library's tables; numbers from oracle/names.py"]
